@@ -44,6 +44,32 @@ Theorem C35_token_lines : forall toks line k t, nth_error toks k = Some t ->
 Proof. exact token_lines_nth. Qed.
 Print Assumptions C35_token_lines.
 
+(* parser errors over token streams: TokenStream.expect failing, and Parser.fail without an explicit
+   line, report the line of the CURRENT token (the lexer half of syntax_error_line is
+   Properties/C35lex.v; build/C35/Gen_dbgparse.v proves the current source of expect / fail equal
+   to these model functions) *)
+Theorem C35_expect_error_line : forall cur matches l,
+  expect cur matches = PSyntaxError l -> matches = false /\ l = t_line cur.
+Proof. intros cur [|] l H; cbn in H; [discriminate|]. injection H as <-. auto. Qed.
+Print Assumptions C35_expect_error_line.
+
+Theorem C35_fail_error_line : forall cur lineno,
+  fail cur lineno = PSyntaxError (match lineno with Some l => l | None => t_line cur end).
+Proof. reflexivity. Qed.
+
+(* ... and that line is the line on which the offending token starts: with the lexer's running
+   counter (C35_token_lines), an expect that fails at the k-th token reports
+   first line + number of line feeds in the source text before that token *)
+Theorem C35_parser_error_token_line : forall (texts : list (list N)) first k t ln eof,
+  nth_error texts k = Some t -> nth_error (token_lines first texts) k = Some ln ->
+  expect (mkTok ln eof) false = PSyntaxError (first + count_nl (concat (firstn k texts))) /\
+  fail (mkTok ln eof) None = PSyntaxError (first + count_nl (concat (firstn k texts))).
+Proof.
+  intros texts first k t ln eof Ht Hl. rewrite (token_lines_nth texts first k t Ht) in Hl. injection Hl as <-.
+  split; reflexivity.
+Qed.
+Print Assumptions C35_parser_error_token_line.
+
 (* non-vacuity: module header, a statement for line 3 spread over two code lines, one for line 5 *)
 Example C35_example :
   let evs := [ENewline None 0; EWrite; ENewline None 1; EWrite; ENewline (Some 3) 0; EWrite; EWrite;
